@@ -4,6 +4,7 @@ package main
 // observation lines as the Lean driver.
 
 import (
+	"bytes"
 	"crypto"
 	"encoding/binary"
 	"errors"
@@ -118,6 +119,21 @@ func (d DI) buildWith(src io.Reader) (sif.DescriptorInput, error) {
 	data := d.Data.Bytes()
 	if src != nil {
 		r = src
+	} else if d.Seekable != "" && d.Fail < 0 {
+		whole := append(bytes.Repeat([]byte("FRAMING!"), d.Pre/8+1)[:d.Pre], data...)
+		if d.Seekable == "file" {
+			if fp, err := os.CreateTemp(scratchRoot, "src"); err == nil {
+				_, _ = fp.Write(whole)
+				_, _ = fp.Seek(int64(d.Pre), io.SeekStart)
+				_ = os.Remove(fp.Name()) // unlinked: disappears with the descriptor
+				r = fp
+			}
+		}
+		if r == nil {
+			br := bytes.NewReader(whole)
+			_, _ = br.Seek(int64(d.Pre), io.SeekStart)
+			r = br
+		}
 	} else if d.Fail >= 0 {
 		n := d.Fail
 		if n > len(data) {
